@@ -58,7 +58,7 @@ class LibMixin:
             return self.cont_call(ct, 'reverse', cont)
         if name == 'abs' and len(args) == 1:
             a = self.expr(args[0]); return '((%s) < 0 ? -(%s) : (%s))' % (a, a, a)
-        if name in self.u.get('lib_stubs', ['stoi', 'stol', 'to_string']):
+        if name in self.u.get('lib_stubs', ['stoi', 'stol', 'to_string', 'get', 'invoke', 'swap', 'holds_alternative']):
             # library function kept as an assumed-contract stub (declared in the unit description)
             atxt = []; ptxt = []; suffix = []
             for i, a in enumerate(args):
@@ -73,7 +73,15 @@ class LibMixin:
                 else:
                     atxt.append(self.expr(a, rvalue=True)); ptxt.append('%s a%d' % (at.c, i))
             rt = self.tyq(n['type'])
+            byref = n.get('valueCategory') == 'lvalue' and rt.kind != 'void'
+            if name in ('get', 'holds_alternative'):          # template argument = result type: part of the name
+                name = '%s_%s' % (name, cident(rt.c))
             cn = 'std_%s%s' % (cident(name), ('__' + '_'.join(suffix)) if suffix else '')
+            if byref:
+                self.autostubs.setdefault(cn, '%s* %s(%s);' % (rt.c, cn, ', '.join(ptxt) or 'void'))
+                self.fninfo.setdefault(cn, {'qname': 'std::' + name, 'stub': True})
+                self.rules['library-stub-call'] += 1
+                return '(*%s(%s))' % (cn, ', '.join(atxt))
             self.autostubs.setdefault(cn, '%s %s(%s);' % (rt.c, cn, ', '.join(ptxt) or 'void'))
             self.fninfo.setdefault(cn, {'qname': 'std::' + name, 'stub': True})
             self.rules['library-stub-call'] += 1
@@ -191,7 +199,8 @@ class LibMixin:
             o = self.obj_text(obj, is_arrow)
             if m == 'has_value': return '%s.has' % o
             if m == 'value':
-                return '%s_value(%s)' % (t.c, o)
+                if rvalue: return '%s_value(%s)' % (t.c, o)
+                return self.chk('%s.has' % o, 'optional::value throws std::bad_optional_access', '%s.val' % o)
             if m.startswith('operator bool') or m == 'operator bool': return '%s.has' % o
             if m == 'reset': return '(%s.has = 0)' % o
             return None
